@@ -1,13 +1,27 @@
 """C06 - encrypted documents yield their plaintext with either password, and only then."""
 import glob, json
+from lib import vlib
 from checks import common
 
 PID = "C06"
 WIT = [("Crypt_w_%s.cfg" % d, d) for d in ("aesv3_key_truncated", "metadata_exemption_ignored", "encrypt_dict_decrypted", "objstm_strings_decrypted_twice")]
 
 
+KDF = {}
+
+
 def add_fixtures(cases):
     out = list(cases)
+    # the iteration rule of the revision 6 hash (spec/Kdf.tla): its own model, witness and cases
+    cfg = KDF["cfg"]
+    r = vlib.run_tlc("MC_Kdf", cfg, PID, cfg[:-4], workers=2, timeout=600)
+    w = vlib.run_tlc("MC_Kdf", "Kdf_w_boundary.cfg", PID, "Kdf_w_boundary", workers=2, timeout=600, expect_violation=True, coverage=False)
+    if r["violation"]:
+        raise vlib.ToolError("Kdf model violated: %s" % r["violation"])
+    if not w["violation"]:
+        raise vlib.ToolError("deviation kdf_boundary_excluded is no longer refuted by the model (spec rot)")
+    KDF["cov"].update({"kdf_model": {"cfg": cfg, "distinct": r["distinct"], "cases": len(r["cases"]), "witness_refuted": w["violation"]}})
+    out += r["cases"]
     for f in sorted(glob.glob("/repo/files/encrypted_*.pdf")):
         out.append(json.dumps({"fixture": f, "good": [""]}))
     for f in sorted(glob.glob("/repo/files/password_protected/*.pdf")):
@@ -16,6 +30,8 @@ def add_fixtures(cases):
 
 
 def run(tier, seed):
+    KDF["cfg"] = "Kdf_q.cfg" if tier == "quick" else "Kdf_t.cfg"
+    KDF["cov"] = {}
     return common.run_enum(PID, tier, seed, "MC_Crypt", "crypt", ["Crypt_q.cfg"], WIT, actions=["Open", "Read"],
         rule="every configuration of the protocol model: 7 handler variants (RC4 40-bit R2, RC4 56/128-bit R3, crypt filters with RC4 / AES-128 R4, AES-256 R5 and R6) x "
              "{user, owner, wrong password, empty user password} x EncryptMetadata x placement {string in an indirect object, stream, metadata stream, the /Encrypt dictionary "
@@ -23,11 +39,13 @@ def run(tier, seed):
              "each is written by the harness' independent security handler (Algorithms 1, 1.A, 2, 2.A, 2.B, 3-5, 8, 9 on md5/sha2/aes/cbc + own RC4) and opened through "
              "FileOptions::password(..).load; strings via resolve, stream data via raw_data must equal the plaintext, a wrong password must give the invalid-password error; "
              "plus Engine B: the 10 encrypted fixtures of the repository opened with every valid password (complete snapshots must be free of decryption errors and equal for "
-             "user and owner) and a wrong one; non-trivial = anything but a short string in a plain object",
+             "user and owner) and a wrong one; plus the iteration rule of the revision 6 hash (spec/Kdf.tla): for every pattern of 'last byte vs round - 32' relations up to the "
+             "stop (3 rounds quick, 5 thorough) and each of the four uses of the hash (user / owner x validation / key salt) a password whose reference hash follows the pattern "
+             "is searched, a document written with it and opened with the found, the other and a wrong password; non-trivial = anything but a short string in a plain object",
         assumptions=["MD5 / RC4 / AES / SHA arithmetic is uninterpreted in the spec; it is bound through the harness' transcription, which agrees with the library on all variants "
                      "and is cross-checked by the third-party fixtures", "object numbers above 1,000,000 cannot occur (the library caps /Size), so the 3-byte truncation of the object number is not reachable",
                      "password strength is out of scope: the spec covers the accept / reject protocol"],
-        case_filter=add_fixtures, exhaustive=True)
+        case_filter=add_fixtures, exhaustive=True, extra_cov=KDF["cov"])
 
 
 def replay(path, seed):
